@@ -9,6 +9,7 @@ package main
 import (
 	"fmt"
 	"os"
+	"os/exec"
 	"runtime"
 	"strings"
 	"sync"
@@ -276,7 +277,81 @@ func histReq(kind string, evs []ev) string {
 	return "hist " + kind + " " + strings.Join(parts, " ")
 }
 
+// childFirstUse runs in a fresh process (package-level state of `message` untouched): 8 goroutines settle 8 different
+// zero-value messages; all are held at the hook point just before the channel is installed/closed and released together, then
+// each reads the channel its own call must have closed. One line "<ops> <results>" per message on stdout.
+func childFirstUse() {
+	const g = 8
+	var arrived int32
+	gate := make(chan struct{})
+	message.SetVerifHook(func(name string, args ...string) {
+		if name == "message.ack.closing" || name == "message.nack.closing" {
+			if atomic.AddInt32(&arrived, 1) == g {
+				close(gate)
+			}
+			select {
+			case <-gate:
+			case <-time.After(300 * time.Millisecond):
+			}
+		}
+	})
+	res := make([]string, g)
+	var wg sync.WaitGroup
+	for i := 0; i < g; i++ {
+		wg.Add(1)
+		go func(i int) {
+			defer wg.Done()
+			m := &message.Message{}
+			ops := "aA"
+			if i%2 == 1 {
+				ops = "nN"
+			}
+			r1 := applyRaw(m, ops[0])
+			r2 := applyRaw(m, ops[1])
+			res[i] = ops + " " + string([]byte{r1, r2})
+		}(i)
+	}
+	wg.Wait()
+	for _, l := range res {
+		fmt.Println(l)
+	}
+}
+
+// firstUse starts n fresh processes of this binary in child mode and reports every message of every child as a case
+// `first zero <ops>`: the very first settlements of a process, on different messages, at the same moment.
+func firstUse(out *wh.Out, n int) {
+	exe, err := os.Executable()
+	if err != nil {
+		out.Note("first-use scenarios skipped: " + err.Error())
+		return
+	}
+	for i := 0; i < n; i++ {
+		cmd := exec.Command(exe)
+		cmd.Env = append(os.Environ(), "WMVERIF_C03_CHILD=first")
+		cmd.Stderr = os.Stderr
+		b, err := cmd.Output()
+		lines := strings.Split(strings.TrimSpace(string(b)), "\n")
+		if err != nil && len(b) == 0 {
+			// the child died before it could report (an unrecovered crash): that is an observation too
+			out.Case("first zero aA", "P")
+			out.Count("first_use.child_crashed")
+			continue
+		}
+		for _, l := range lines {
+			f := strings.Fields(l)
+			if len(f) == 2 {
+				out.Case("first zero "+f[0], f[1])
+				out.Count("first_use.messages")
+			}
+		}
+	}
+}
+
 func main() {
+	if os.Getenv("WMVERIF_C03_CHILD") == "first" {
+		childFirstUse()
+		return
+	}
 	a := wh.ParseArgs()
 	out := wh.NewOut(a.Out)
 	defer out.Close()
@@ -290,6 +365,23 @@ func main() {
 			out.Case(a.Replay, dash(runSeq(f[1], ops)))
 			return
 		}
+		if len(f) >= 3 && f[0] == "first" {
+			// re-run fresh processes; report a deviating observation if one shows up again, else the regular one
+			tmp := wh.NewOut(a.Out + ".first")
+			firstUse(tmp, 40)
+			tmp.Close()
+			b, _ := os.ReadFile(a.Out + ".first")
+			os.Remove(a.Out + ".first")
+			obs := "tc"
+			for _, l := range strings.Split(string(b), "\n") {
+				if strings.HasPrefix(l, "OBS ") && strings.TrimSpace(l[4:]) != "tc" {
+					obs = strings.TrimSpace(l[4:])
+					break
+				}
+			}
+			out.Case(a.Replay, obs)
+			return
+		}
 		fmt.Fprintln(os.Stderr, "only seq requests can be replayed deterministically; hist requests carry their own observation")
 		out.Case(a.Replay, "lin")
 		return
@@ -301,6 +393,11 @@ func main() {
 		nHist = 6000
 	}
 	enumSeq(out, maxLen)
+	nChild := 40
+	if a.Thorough() {
+		nChild = 400
+	}
+	firstUse(out, nChild)
 	rng := wh.NewRng(a.Seed)
 	// parked winner x every script of length <= 3 (4 in the thorough tier) of the second goroutine
 	parkLen := 3
